@@ -34,7 +34,7 @@ def plan(tier, seed):
     return [dict(n=n, L=L, first=f) for n in (1, 2, 3, 4)
             for f in ("R", "W")] + [
         dict(n=n, concurrent=True, seed=seed,
-             count=150 if tier == "quick" else 3000) for n in (1, 2, 3, 4)]
+             count=600 if tier == "quick" else 6000) for n in (1, 2, 3, 4)]
 
 
 def sequences(L, first):
